@@ -74,8 +74,10 @@ pub struct GenParams {
     pub n_names: u32,
     /// bias (0..=3): how strongly compound children are drawn from unordered / symmetric constructors
     pub unordered_bias: u32,
-    /// allow exotic shapes (empty sets, placeholder atoms, non-identifier names)
+    /// allow exotic shapes (empty sets, placeholder atoms, placeholders inside images, non-identifier names)
     pub exotic: bool,
+    /// a compound position below the root becomes an atom with probability 1/stop_den
+    pub stop_den: u32,
 }
 
 const NAMES: [&str; 14] = ["A", "B", "C", "D", "robin", "bird", "x1", "Z9", "E", "F", "G", "H", "tweety", "k2"];
@@ -103,9 +105,18 @@ fn gen_name(ch: &mut Choices, p: &GenParams) -> String {
 
 /// `in_unordered`: this node is a direct or indirect child of an unordered / symmetric node
 pub fn gen_desc(ch: &mut Choices, p: &GenParams, depth: u32, in_unordered: bool) -> Desc {
-    if depth >= p.max_depth || (depth > 0 && ch.chance(1, 3)) {
+    // every description is bounded: at most ~MAX_NODES compound positions, then atoms only
+    let mut budget = MAX_NODES;
+    gen_desc_in(ch, p, depth, in_unordered, &mut budget)
+}
+
+const MAX_NODES: u32 = 90;
+
+fn gen_desc_in(ch: &mut Choices, p: &GenParams, depth: u32, in_unordered: bool, budget: &mut u32) -> Desc {
+    if depth >= p.max_depth || *budget == 0 || (depth > 0 && ch.chance(1, p.stop_den.max(2))) {
         return gen_atom(ch, p);
     }
+    *budget -= 1;
     // family weights: set, sym, pair, seq, image, neg
     // inside an unordered parent, bias towards more unordered structure: only *nested*
     // unordered structure makes equality go through `Term::hash`
@@ -113,9 +124,9 @@ pub fn gen_desc(ch: &mut Choices, p: &GenParams, depth: u32, in_unordered: bool)
     let w_set = 30 + 10 * b + if in_unordered { 10 * b } else { 0 };
     let w_sym = 12 + 4 * b + if in_unordered { 4 * b } else { 0 };
     let fam = ch.weighted(&[w_set, w_sym, 16, 10, 6, 5]);
-    let kids = |ch: &mut Choices, n: u32, unordered: bool| -> Vec<Desc> {
+    let kids = |ch: &mut Choices, n: u32, unordered: bool, budget: &mut u32| -> Vec<Desc> {
         (0..n)
-            .map(|_| gen_desc(ch, p, depth + 1, in_unordered || unordered))
+            .map(|_| gen_desc_in(ch, p, depth + 1, in_unordered || unordered, budget))
             .collect()
     };
     match fam {
@@ -123,7 +134,7 @@ pub fn gen_desc(ch: &mut Choices, p: &GenParams, depth: u32, in_unordered: bool)
             let k = ch.choose(N_SET as u32) as u8;
             let lo = if p.exotic && ch.chance(1, 10) { 0 } else { 1 };
             let n = ch.range(lo, p.max_fan.max(lo));
-            let mut v = kids(ch, n, true);
+            let mut v = kids(ch, n, true, budget);
             // semantic duplicates listed explicitly in the description
             if !v.is_empty() && ch.chance(1, 5) {
                 let i = ch.choose(v.len() as u32) as usize;
@@ -135,40 +146,45 @@ pub fn gen_desc(ch: &mut Choices, p: &GenParams, depth: u32, in_unordered: bool)
         }
         1 => {
             let k = ch.choose(N_SYM as u32) as u8;
-            let a = gen_desc(ch, p, depth + 1, true);
+            let a = gen_desc_in(ch, p, depth + 1, true, budget);
             let b = if ch.chance(1, 8) {
                 a.clone()
             } else {
-                gen_desc(ch, p, depth + 1, true)
+                gen_desc_in(ch, p, depth + 1, true, budget)
             };
             Desc::Sym(k, Box::new(a), Box::new(b))
         }
         2 => {
             let k = ch.choose(N_PAIR as u32) as u8;
-            let a = gen_desc(ch, p, depth + 1, in_unordered);
-            let b = gen_desc(ch, p, depth + 1, in_unordered);
+            let a = gen_desc_in(ch, p, depth + 1, in_unordered, budget);
+            let b = gen_desc_in(ch, p, depth + 1, in_unordered, budget);
             Desc::Pair(k, Box::new(a), Box::new(b))
         }
         3 => {
             let k = ch.choose(N_SEQ as u32) as u8;
             let lo = if p.exotic && ch.chance(1, 10) { 0 } else { 1 };
             let n = ch.range(lo, p.max_fan.max(lo));
-            Desc::Seq(k, kids(ch, n, false))
+            Desc::Seq(k, kids(ch, n, false, budget))
         }
         4 => {
             let k = ch.choose(2) as u8;
             let n = ch.range(1, p.max_fan.max(1));
-            let mut v = kids(ch, n, false);
-            // no placeholder inside an image (the surface syntax could not express it)
+            let mut v = kids(ch, n, false, budget);
+            // no placeholder inside an image (the surface syntax could not express it),
+            // except in exotic descriptions, which only go through the constructor routes
             for x in v.iter_mut() {
-                if matches!(x, Desc::Placeholder) {
+                if matches!(x, Desc::Placeholder) && !p.exotic {
                     *x = Desc::Atom(A_WORD, "A".into());
                 }
+            }
+            if p.exotic && ch.chance(1, 3) {
+                let at = ch.choose(v.len() as u32) as usize;
+                v[at] = Desc::Placeholder;
             }
             let i = ch.choose(v.len() as u32 + 1) as usize;
             Desc::Image(k, i, v)
         }
-        _ => Desc::Neg(Box::new(gen_desc(ch, p, depth + 1, in_unordered))),
+        _ => Desc::Neg(Box::new(gen_desc_in(ch, p, depth + 1, in_unordered, budget))),
     }
 }
 
